@@ -110,6 +110,7 @@ end ArrayM
 /-- Operations of an `Array` test program over a register table. -/
 inductive ArrOp (α : Type) where
   | push (r : Nat) (x : α)
+  | pushSelf (r i : Nat)        -- `r += r[i]` / `r.Insert(r[i])`: the argument is a `const&` into the array's own storage
   | appC (r s : Nat)            -- `r += (const Array&) s`, `s = r` allowed
   | appM (r s : Nat)            -- `r += Move(s)`
   | asgC (r s : Nat)            -- `r = s`
@@ -129,6 +130,10 @@ abbrev ArrSt (α : Type) := Nat → ArrayM α
 def ArrOp.step {α : Type} (d : α) (op : ArrOp α) (st : ArrSt α) : ArrSt α × Option (List α) :=
   match op with
   | .push r x => (setR st r ((st r).push x), none)
+  | .pushSelf r i =>
+    match (st r).data[i]? with          -- the argument's value is taken before the array changes
+    | some x => (setR st r ((st r).push x), none)
+    | none => (st, none)
   | .appC r s => (setR st r ((st r).appendCopy (st s).data), none)
   | .appM r s =>
     let src := st s
@@ -167,6 +172,10 @@ abbrev ArrAbs (α : Type) := Nat → List α
 def ArrOp.spec {α : Type} (d : α) (op : ArrOp α) (st : ArrAbs α) : ArrAbs α × Option (List α) :=
   match op with
   | .push r x => (setR st r (st r ++ [x]), none)
+  | .pushSelf r i =>
+    match (st r)[i]? with
+    | some x => (setR st r (st r ++ [x]), none)
+    | none => (st, none)
   | .appC r s => (setR st r (st r ++ st s), none)
   | .appM r s => (setR (setR st r (st r ++ st s)) s [], none)
   | .asgC r s => (setR st r (st s), none)
@@ -224,6 +233,13 @@ def isWs (c : Nat) : Bool := c == 32 || c == 10 || c == 9 || c == 13
 
 /-- `StringUtils::Trim` (StringUtils.hpp:53-109) as a function on the unit list. -/
 def trimList (l : List Nat) : List Nat := ((l.dropWhile isWs).reverse.dropWhile isWs).reverse
+
+/-- A sub-range `[off, off+n)` of a container's own content, handed back to it as pointer + length
+(or as a view).  The value is taken before the container changes. -/
+def ownSlice (d : List Nat) (off n : Nat) : List Nat := (d.drop off).take n
+
+/-- The C string starting at unit `off` of a container's own (terminated) buffer. -/
+def ownCStr (d : List Nat) (off : Nat) : List Nat := (d.drop off).takeWhile (· != 0)
 
 /-! ## String (String.hpp) -/
 
@@ -306,6 +322,8 @@ inductive StrOp where
   | appC (r s : Nat) | appM (r s : Nat)
   | appU (r : Nat) (u : List Nat)     -- `+= const Char_T*`, `<< const Char_T*`, `Write(ptr, len)`
   | appCh (r c : Nat)
+  | appOwn (v r off n : Nat)          -- argument inside its own block: `Write(First()+off, n)` (v=0), `+= First()+off` (1), `<< First()+off` (2)
+  | asgOwn (r off : Nat)              -- `r = r.First() + off`
   | plus (r s t : Nat)                -- `r = s + t`
   | plusM (r s t : Nat)               -- `r = s + Move(t)`
   | plusU (r s : Nat) (u : List Nat)  -- `r = s + "…"`
@@ -337,6 +355,13 @@ def StrOp.step (op : StrOp) (st : StrSt) : StrSt × Out :=
   | .appM r s => (setR (setR st r ((st r).write (st s).data)) s StringM.empty, .none)
   | .appU r u => (setR st r ((st r).write u), .none)
   | .appCh r c => (setR st r ((st r).write [c]), .none)
+  | .appOwn v r off n =>
+    let d := (st r).data
+    (setR st r ((st r).write (if v = 0 then ownSlice d off n else ownCStr d off)), .none)
+  | .asgOwn r off =>
+    match (st r).store with
+    | none => (st, .none)                        -- no block, no pointer to hand in
+    | some _ => (setR st r (StringM.ofUnits (ownCStr (st r).data off)), .none)
   | .plus r s t => (setR st r (StringM.merge (st s).data (st t).data), .none)
   | .plusM r s t => let m := StringM.merge (st s).data (st t).data; (setR (setR st t StringM.empty) r m, .none)
   | .plusU r s u => (setR st r (StringM.merge (st s).data u), .none)
@@ -376,6 +401,8 @@ def StrOp.spec (op : StrOp) (st : SeqAbs) : SeqAbs × Out :=
   | .appM r s => (setR (setR st r (st r ++ st s)) s [], .none)
   | .appU r u => (setR st r (st r ++ u), .none)
   | .appCh r c => (setR st r (st r ++ [c]), .none)
+  | .appOwn v r off n => (setR st r (st r ++ (if v = 0 then ownSlice (st r) off n else ownCStr (st r) off)), .none)
+  | .asgOwn r off => (setR st r (ownCStr (st r) off), .none)
   | .plus r s t => (setR st r (st s ++ st t), .none)
   | .plusM r s t => let m := st s ++ st t; (setR (setR st t []) r m, .none)
   | .plusU r s u => (setR st r (st s ++ u), .none)
@@ -497,6 +524,9 @@ inductive SsOp where
   | appS (r s : Nat)                  -- `r += stream s`
   | shlS (r s : Nat)                  -- `r << stream s`
   | appU (v r : Nat) (u : List Nat)   -- `+= String`(0) `+= View`(1) `+= cstr`(2) `<< String`(3) `<< View`(4) `<< cstr`(5) `Write`(6)
+  | appOwn (v r off n : Nat)          -- argument inside its own buffer: `Write(First()+off, n)` (v=0), `+=`/`<<` a view of
+                                      -- `[off, off+n)` (1, 2), `InsertNull(); += / << First()+off` (3, 4), `<< GetStringView()` (5)
+  | asgOwn (v r off n : Nat)          -- `r = StringView(First()+off, n)` (v=0), `InsertNull(); r = First()+off` (1)
   | clear (r : Nat) | reset (r : Nat) | detach (r : Nat)
   | stepBack (r n : Nat) | reverse (r idx : Nat) | insertAt (r c idx : Nat)
   | setLength (r n : Nat) (fill : List Nat) | buffer (r : Nat) (fill : List Nat)
@@ -520,6 +550,15 @@ def SsOp.step (P : Policy) (op : SsOp) (st : SsSt) : SsSt × Out :=
   | .appS r s => (setR st r ((st r).appendStream P (st s).data), .none)
   | .shlS r s => (setR st r ((st r).appendStream P (st s).data), .none)
   | .appU _ r u => (setR st r ((st r).write P u), .none)
+  | .appOwn v r off n =>
+    let d := (st r).data
+    if v < 3 then (setR st r ((st r).write P (ownSlice d off n)), .none)
+    else if v < 5 then (setR st r (((st r).insertNull P).write P (ownCStr d off)), .none)
+    else (setR st r (((st r).insertNull P).write P d), .none)
+  | .asgOwn v r off n =>
+    let d := (st r).data
+    if v = 0 then (setR st r ((st r).clear.write P (ownSlice d off n)), .none)
+    else (setR st r (((st r).insertNull P).clear.write P (ownCStr d off)), .none)
   | .clear r => (setR st r (st r).clear, .none)
   | .reset r => (setR st r StreamM.empty, .none)
   | .detach r => (setR st r StreamM.empty, .units (st r).data)
@@ -558,6 +597,9 @@ def SsOp.spec (op : SsOp) (st : SeqAbs) : SeqAbs × Out :=
   | .appS r s => (setR st r (st r ++ st s), .none)
   | .shlS r s => (setR st r (st r ++ st s), .none)
   | .appU _ r u => (setR st r (st r ++ u), .none)
+  | .appOwn v r off n =>
+    (setR st r (st r ++ (if v < 3 then ownSlice (st r) off n else if v < 5 then ownCStr (st r) off else st r)), .none)
+  | .asgOwn v r off n => (setR st r (if v = 0 then ownSlice (st r) off n else ownCStr (st r) off), .none)
   | .clear r => (setR st r [], .none)
   | .reset r => (setR st r [], .none)
   | .detach r => (setR st r [], .units (st r))
